@@ -217,6 +217,14 @@ def analyse(src: Source) -> List[Report]:
             rep.ob("R7.2-position-writers", kind is not None, loc, w.stmt,
                    "a position is written outside the constructors, the global-state setter, the time-slice routine and "
                    "the cell-boundary snap: this moves a particle discontinuously")
+    # committed event times never decrease only if the schedulers return the live minimum: order tables and the
+    # lazy-deletion protocol (rules shared with C06)
+    from ..cfront import CUnit
+    from .c06 import HEAP_C, check_c_comparisons, check_heap_scheduler, check_list_scheduler
+    unit = CUnit(src, HEAP_C)
+    check_c_comparisons(unit, rep)
+    check_heap_scheduler(src, rep, unit)
+    check_list_scheduler(src, rep)
     from ..components import check_component_consistency
     check_component_consistency(prog, rep, "R7.6-component-consistency")
     rep.expect_min("R7.6-component-consistency", 4)
